@@ -339,6 +339,24 @@ fn fold_events(evs: &[Ev], base: &str) -> Result<Observed, TraceErr> {
                     o.pre.push(FsOp::Unlink { name: n, ok: *ok });
                 }
             }
+            // what the worker's history did to the directory BEFORE the traced save (flush_all_updates
+            // writes the flushed buckets through save_index): part of the state before the save
+            Ev::Open { path, wr: true, append, trunc, ok: true } if !active && !ended => {
+                let Some(n) = rel_name(base, path) else { continue };
+                if *append {
+                    o.pre.push(FsOp::OpenAppend { name: n, ok: true });
+                } else if *trunc {
+                    o.pre.push(FsOp::Create { name: n, ok: true });
+                }
+            }
+            Ev::Write { path, ok: true, data } if !active && !ended => {
+                let Some(n) = path.as_deref().and_then(|p| rel_name(base, p)) else { continue };
+                o.pre.push(FsOp::Write { name: n, data: data.clone() });
+            }
+            Ev::Rename { from, to, ok: true } if !active && !ended => {
+                let (Some(a), Some(b)) = (rel_name(base, from), rel_name(base, to)) else { continue };
+                o.pre.push(FsOp::Rename { from: a, to: b, ok: true });
+            }
             Ev::Open { path, wr, append, trunc, ok } => {
                 let Some(n) = rel_name(base, path) else { continue };
                 if !*wr || !active {
@@ -797,6 +815,60 @@ fn dc_value(spec: &str) -> Vec<u8> {
     r.bytes(n)
 }
 
+/// RLIMIT_FSIZE with a SIGXFSZ handler that lifts the limit again after a number of signals, so a
+/// save can be made to fail in its first attempt(s) and succeed in a later one. (libc symbols
+/// declared by hand: the harness crate has no libc dependency.)
+mod fsize_limit {
+    use std::sync::atomic::{AtomicU64, Ordering};
+    #[repr(C)]
+    struct RLimit {
+        cur: u64,
+        max: u64,
+    }
+    unsafe extern "C" {
+        fn getrlimit(resource: i32, rlim: *mut RLimit) -> i32;
+        fn setrlimit(resource: i32, rlim: *const RLimit) -> i32;
+        fn signal(signum: i32, handler: usize) -> usize;
+    }
+    const RLIMIT_FSIZE: i32 = 1;
+    const SIGXFSZ: i32 = 25;
+    static SIGNALS: AtomicU64 = AtomicU64::new(0);
+    static LIFT_AT: AtomicU64 = AtomicU64::new(u64::MAX);
+
+    fn lift() {
+        let mut r = RLimit { cur: 0, max: 0 };
+        // SAFETY: plain libc calls on a local struct of the right layout (x86_64 / aarch64 glibc: two u64)
+        unsafe {
+            if getrlimit(RLIMIT_FSIZE, &mut r) == 0 {
+                r.cur = r.max;
+                setrlimit(RLIMIT_FSIZE, &r);
+            }
+        }
+    }
+    extern "C" fn on_xfsz(_sig: i32) {
+        let n = SIGNALS.fetch_add(1, Ordering::SeqCst) + 1;
+        if n >= LIFT_AT.load(Ordering::SeqCst) {
+            lift();
+        }
+    }
+    pub fn arm(limit: u64, lift_at_signal: u64) {
+        SIGNALS.store(0, Ordering::SeqCst);
+        LIFT_AT.store(lift_at_signal.max(1), Ordering::SeqCst);
+        let mut r = RLimit { cur: 0, max: 0 };
+        // SAFETY: as above; the handler only touches atomics and calls setrlimit
+        unsafe {
+            signal(SIGXFSZ, on_xfsz as *const () as usize);
+            if getrlimit(RLIMIT_FSIZE, &mut r) == 0 {
+                r.cur = limit.min(r.max);
+                setrlimit(RLIMIT_FSIZE, &r);
+            }
+        }
+    }
+    pub fn disarm() {
+        lift();
+    }
+}
+
 fn worker(a: &[String]) {
     // a = [routine, dir, script, extra…]
     let routine = a[0].as_str();
@@ -840,9 +912,34 @@ fn worker(a: &[String]) {
             }
             println!("STATE {}", idx_state(&m));
             println!("BUCKETS {}", m.loaded_buckets().iter().map(|b| format!("{b:02x}")).collect::<Vec<_>>().join(","));
+            // induced I/O errors for save_index's retry path:
+            //   obst:<bucket>      the temporary name of that bucket exists as a DIRECTORY (File::create fails)
+            //   fsize:<k>:<n>      RLIMIT_FSIZE = k bytes until the n-th SIGXFSZ, then lifted (writes fail with EFBIG)
+            let mut obstacles = vec![];
+            let mut fsize: Option<(u64, u64)> = None;
+            for t in &script {
+                let f: Vec<&str> = t.split(':').collect();
+                match f.as_slice() {
+                    ["obst", b] => {
+                        let p = dir.join(format!("{b}00000001.tmp"));
+                        if std::fs::create_dir(&p).is_ok() {
+                            obstacles.push(p);
+                        }
+                    }
+                    ["fsize", k, n] => fsize = Some((k.parse().unwrap_or(0), n.parse().unwrap_or(u64::MAX))),
+                    _ => {}
+                }
+            }
+            if let Some((k, n)) = fsize {
+                fsize_limit::arm(k, n);
+            }
             marker(&dir, "__BEGIN__");
             let r = m.save_all();
             marker(&dir, "__END__");
+            fsize_limit::disarm();
+            for p in obstacles {
+                let _ = std::fs::remove_dir(p);
+            }
             println!("RESULT {}", if r.is_ok() { "ok" } else { "err" });
         }
         "res" => {
@@ -1035,6 +1132,8 @@ fn load_state(ctx: &Ctx, snap: &Snap) -> String {
 
 struct StepOut {
     pre: Vec<FsOp>,
+    /// the net effect of `pre` on the directory, as tokens of the `pre` request line
+    pre_diff: Vec<String>,
     trace: Vec<FsOp>,
     failed_writes: u64,
     old: Snap,
@@ -1092,14 +1191,19 @@ fn run_worker(ctx: &Ctx, dir: &Path, script: &str) -> Result<StepOut, TraceErr> 
         (None, None) => return Err(TraceErr::Infra("no tracer".into())),
     };
     let new = snapshot(dir);
-    // what the worker's own reopen removed before the save started is part of the old state
-    let mut old = old;
-    for o in &obs.pre {
-        if let FsOp::Unlink { name, .. } = o {
-            old.remove(name);
+    // what the worker did to the directory before the traced save started (its own reopen removing
+    // stale files, the saves inside flush_all_updates) is part of the old state
+    let before = old;
+    let old = image(&state_at(&durable(&before), &obs.pre, obs.pre.len(), 0), "asis");
+    let mut pre_diff = vec![];
+    for n in before.keys().chain(old.keys()).collect::<std::collections::BTreeSet<_>>() {
+        match (before.get(n), old.get(n)) {
+            (Some(_), None) => pre_diff.push(format!("unlink:{n}")),
+            (a, Some(b)) if a != Some(b) => pre_diff.push(format!("put:{n}:{}", if b.is_empty() { "-".to_string() } else { hex(b) })),
+            _ => {}
         }
     }
-    Ok(StepOut { pre: obs.pre, trace: obs.ops, failed_writes: obs.failed_writes, old, new, expected: info.get("STATE").cloned(), result, info })
+    Ok(StepOut { pre: obs.pre, pre_diff, trace: obs.ops, failed_writes: obs.failed_writes, old, new, expected: info.get("STATE").cloned(), result, info })
 }
 
 fn hexs(b: &[u8]) -> String {
@@ -1114,7 +1218,15 @@ fn model_params(ctx: &Ctx, script: &str, so: &StepOut) -> String {
             let mut v = vec!["idx".to_string(), "v=1".to_string()];
             for b in buckets.split(',').filter(|x| !x.is_empty()) {
                 let fin = format!("{b}00000001.idx");
-                v.push(format!("{b}={}", hexs(so.new.get(&fin).map(Vec::as_slice).unwrap_or(&[]))));
+                let tmp = format!("{b}00000001.tmp");
+                let (outs, saved, prefix) = idx_outcomes(&so.trace, &tmp);
+                // the bytes of the save: the file it left; for a bucket whose three attempts all
+                // failed, the longest prefix any attempt wrote (the model uses only prefixes of it)
+                let bytes: &[u8] = if saved || outs.is_empty() { so.new.get(&fin).map(Vec::as_slice).unwrap_or(&[]) } else { &prefix };
+                v.push(format!("{b}={}", hexs(bytes)));
+                if outs.iter().any(|o| o != "k") {
+                    v.push(format!("o{b}={}", outs.join(",")));
+                }
             }
             v.join(" ")
         }
@@ -1141,6 +1253,56 @@ fn model_params(ctx: &Ctx, script: &str, so: &StepOut) -> String {
         }
         _ => "?".into(),
     }
+}
+
+/// how the attempts of `save_index` on temporary file `tmp` ended, read off the observed calls:
+/// (outcome tokens for the model, did the last attempt succeed, longest prefix written)
+fn idx_outcomes(t: &[FsOp], tmp: &str) -> (Vec<String>, bool, Vec<u8>) {
+    let mut outs = vec![];
+    let mut saved = false;
+    let mut longest: Vec<u8> = vec![];
+    let mut open: Option<Vec<u8>> = None;
+    for o in t {
+        match o {
+            FsOp::Create { name, ok } if name == tmp => {
+                if *ok {
+                    open = Some(vec![]);
+                } else {
+                    outs.push("c".to_string());
+                    open = None;
+                }
+            }
+            FsOp::Write { name, data } if name == tmp => {
+                if let Some(w) = open.as_mut() {
+                    w.extend_from_slice(data);
+                }
+            }
+            FsOp::Rename { from, ok, .. } if from == tmp => {
+                if *ok {
+                    outs.push("k".to_string());
+                    saved = true;
+                } else {
+                    outs.push("r".to_string());
+                }
+                if let Some(w) = open.take() {
+                    if w.len() > longest.len() {
+                        longest = w;
+                    }
+                }
+            }
+            FsOp::Unlink { name, .. } if name == tmp => {
+                // remove_file(temp) after a failed attempt; an attempt still open failed while writing
+                if let Some(w) = open.take() {
+                    outs.push(format!("w{}", w.len()));
+                    if w.len() > longest.len() {
+                        longest = w;
+                    }
+                }
+            }
+            _ => {}
+        }
+    }
+    (outs, saved, longest)
 }
 
 fn is_torn_journal(b: &[u8]) -> Option<&'static str> {
@@ -1210,6 +1372,7 @@ struct Hist {
     replay: Vec<String>,
     last: Option<StepOut>,
     gran: usize,
+    thorough: bool,
     dead: bool,
 }
 
@@ -1245,12 +1408,12 @@ impl Hist {
                 return;
             }
         };
-        if !so.pre.is_empty() {
-            let names: Vec<String> = so.pre.iter().filter_map(|o| if let FsOp::Unlink { name, .. } = o { Some(format!("unlink:{name}")) } else { None }).collect();
+        if !so.pre_diff.is_empty() {
             // not part of the replay: the worker does it again
-            s.line(&format!("pre {}", names.join(",")), "ok");
-            s.tally(&format!("{}:reopen-removed-stale-file", self.ctx.routine));
+            s.line(&format!("pre {}", so.pre_diff.join(",")), "ok");
+            s.tally(&format!("{}:history-changed-directory-before-save", self.ctx.routine));
         }
+        let _ = &so.pre;
         let line = format!("step {script} | {}", model_params(&self.ctx, script, &so));
         s.line(&line, &trace_text(&so.trace));
         // replay lines carry only the script (the model parameters are recomputed)
@@ -1274,6 +1437,21 @@ impl Hist {
             let diff: Vec<&String> = end.keys().chain(so.new.keys()).filter(|n| end.get(*n) != so.new.get(*n)).collect();
             s.oracle_fail(&format!("{routine}-trace-replay-mismatch"), &format!("applying the observed operations to the old directory does not give the directory the save left behind (files {diff:?}): the save wrote through calls the protocol does not have"), &self.replay);
         }
+        // 1b. bookkeeping for the retry path (tallies only: the property does not forbid a leftover
+        //     temporary file, it requires later loads to ignore it - that is what the crash states test)
+        if matches!(routine.as_str(), "idx" | "res" | "lru") && so.new.keys().any(|n| n.ends_with(".tmp") && !so.old.contains_key(n)) {
+            s.tally(&format!("{routine}:save-left-temp-file"));
+        }
+        if routine == "idx" {
+            let tmps: std::collections::BTreeSet<String> = so.trace.iter().filter_map(|o| match o { FsOp::Create { name, .. } if name.ends_with(".tmp") => Some(name.clone()), _ => None }).collect();
+            for tmp in tmps {
+                let (outs, saved, _) = idx_outcomes(&so.trace, &tmp);
+                let failed = outs.iter().filter(|o| *o != "k").count();
+                if failed > 0 {
+                    s.tally(&format!("idx:bucket-save-{failed}-failed-attempt(s)-then-{}", if saved { "ok" } else { "err" }));
+                }
+            }
+        }
         // 2. old / new logical states
         let old_state = load_state(&self.ctx, &so.old);
         let new_state = load_state(&self.ctx, &so.new);
@@ -1288,7 +1466,13 @@ impl Hist {
             };
             if so.result == "ok" && comparable && *exp != new_state {
                 let sig = match routine.as_str() {
-                    "jrn" => is_torn_journal(so.old.get(&self.ctx.name).map(Vec::as_slice).unwrap_or(&[])).map(|x| x.to_string()).unwrap_or_else(|| "jrn-completed-save-reload-differs".into()),
+                    "jrn" => {
+                        let ob = so.old.get(&self.ctx.name).map(Vec::as_slice).unwrap_or(&[]);
+                        // whole header + whole records, but the header bytes are not the ones record_segment
+                        // writes (they came back as zeros / stale after a crash: never synced, never rewritten)
+                        let hdr_bad = ob.len() >= 5 && (ob.len() - 5) % 4 == 0 && (ob[0] != 1 || u32::from_le_bytes([ob[1], ob[2], ob[3], ob[4]]) != u32::from(cascette_client_storage::storage::segment::MAX_SEGMENTS));
+                        is_torn_journal(ob).map(|x| x.to_string()).unwrap_or_else(|| if hdr_bad { "journal-header-not-synced".into() } else { "jrn-completed-save-reload-differs".into() })
+                    }
                     r => format!("{r}-completed-save-reload-differs"),
                 };
                 s.oracle_fail(&sig, &format!("{routine}: the save returned Ok with in-memory state `{}` but a fresh load of the directory gives `{}` (old file length {:?})", short(exp), short(&new_state), so.old.get(&self.ctx.name).map(Vec::len)), &self.replay);
@@ -1297,7 +1481,14 @@ impl Hist {
         // 3. every crash state
         let mut seen: HashSet<u64> = HashSet::new();
         let mut reported: HashSet<String> = HashSet::new();
-        let cs = cuts(&so.trace, self.gran);
+        // a save with induced failures repeats its (large) writes up to three times: cut them coarser
+        let gran = if script.contains("fsize:") || script.contains("obst:") { if self.thorough { 512 } else { 4096 } } else { self.gran };
+        let mut cs = cuts(&so.trace, gran);
+        if !self.thorough && cs.len() > 1500 {
+            // quick tier: a save of several large files (64 KiB alignment padding + update section per
+            // bucket) is cut every 256 bytes instead of every 64 (first/last bytes of every write stay)
+            cs = cuts(&so.trace, gran.max(256));
+        }
         let mut nstates = 0u64;
         let mut torn_visible = 0u64;
         for (i, k) in &cs {
@@ -1314,6 +1505,32 @@ impl Hist {
                 }
                 nstates += 1;
                 let got = load_state(&self.ctx, &img);
+                // K for the LOADERS of the model on exactly the crash states: journalLoad / lruLoad
+                match routine.as_str() {
+                    "jrn" => {
+                        let c = match img.get(&self.ctx.name) {
+                            None => "none".to_string(),
+                            Some(b) if b.is_empty() => "-".to_string(),
+                            Some(b) => hex(b),
+                        };
+                        s.line(&format!("jload {c}"), &got);
+                    }
+                    "lru" => {
+                        let listing: Vec<String> = img
+                            .iter()
+                            .map(|(n, b)| format!("{n}:{}", u8::from(cascette_client_storage::lru::lru_file::deserialize(b).is_some())))
+                            .collect();
+                        let resp = if got == "err" || got == "panic" {
+                            got.clone()
+                        } else if got.starts_with("gen=none") {
+                            "fresh".to_string()
+                        } else {
+                            format!("loaded {}", got.strip_prefix("gen=").and_then(|x| x.split(' ').next()).unwrap_or("?"))
+                        };
+                        s.line(&format!("lload {}", if listing.is_empty() { "-".to_string() } else { listing.join(",") }), &resp);
+                    }
+                    _ => {}
+                }
                 let (verdict, bad_objects) = classify(&routine, &got, &old_state, &new_state);
                 s.tally(&format!("{routine}:crash-state-{verdict}"));
                 s.case(Some(&format!("{routine} {script} {} {i} {k} {v}", listing_image(&so.old))));
@@ -1445,7 +1662,7 @@ fn gen_history(s: &mut Session, r: &mut Rng, routine: &str, thorough: bool, vari
             for _ in 0..steps {
                 let mut toks = vec![];
                 for _ in 0..r.range(1, 5) {
-                    let sb = r.chance(1, 2);
+                    let sb = r.chance(1, 2) || (variant_no % 4 == 3 && toks.is_empty());
                     let k = gen_key16(r, sb);
                     toks.push(format!("add:{k}:{}:{}:{}", r.below(1024), r.below(1 << 30), r.range(1, 1 << 20)));
                     present.push(k);
@@ -1453,8 +1670,20 @@ fn gen_history(s: &mut Session, r: &mut Rng, routine: &str, thorough: bool, vari
                 if !present.is_empty() && r.chance(1, 3) {
                     toks.push(format!("rm:{}", r.pick(&present).clone()));
                 }
-                if r.chance(2, 3) {
+                // save_index's retry path: induced write failures (variant 1) / create failures (variant 3)
+                let inject = variant_no % 4 == 1 && (scripts.len() == 1 || r.chance(1, 2));
+                // the injected step of every such history keeps its updates pending: the file then has the
+                // 64 KiB alignment padding and the update section, i.e. several large writes that can fail
+                if r.chance(2, 3) && !(inject && scripts.len() == 1) {
                     toks.push("flush".into());
+                }
+                if inject {
+                    let k = if scripts.len() == 1 { *r.pick(&[40u64, 65536, 70000, 96255]) } else { *r.pick(&[0u64, 1, 8, 39, 40, 41, 57, 100, 4096, 65536, 70000, 96255]) };
+                    let n = *r.pick(&[1u64, 1, 2, 2, 3, 6]);
+                    toks.push(format!("fsize:{k}:{n}"));
+                }
+                if variant_no % 4 == 3 && r.chance(1, 2) {
+                    toks.push("obst:0c".into());
                 }
                 scripts.push(toks.join(","));
             }
@@ -1532,7 +1761,7 @@ fn gen_history(s: &mut Session, r: &mut Rng, routine: &str, thorough: bool, vari
         }
         _ => return,
     }
-    let mut h = Hist { ctx, dir: tempfile::tempdir().expect("tempdir"), replay: vec![], last: None, gran, dead: false };
+    let mut h = Hist { ctx, dir: tempfile::tempdir().expect("tempdir"), replay: vec![], last: None, gran, thorough, dead: false };
     h.begin(s);
     let n = scripts.len();
     for (j, sc) in scripts.iter().enumerate() {
@@ -1575,7 +1804,7 @@ fn replay_file(s: &mut Session, lines: &[String], thorough: bool) {
                     sub: get("sub").parse().unwrap_or(0),
                     universe: if uni == "-" || uni.is_empty() { vec![] } else { uni.split('/').map(str::to_string).collect() },
                 };
-                let mut nh = Hist { ctx, dir: tempfile::tempdir().expect("tempdir"), replay: vec![], last: None, gran: if thorough { 64 } else { 64 }, dead: false };
+                let mut nh = Hist { ctx, dir: tempfile::tempdir().expect("tempdir"), replay: vec![], last: None, gran: if thorough { 64 } else { 64 }, thorough, dead: false };
                 nh.begin(s);
                 h = Some(nh);
             }
